@@ -76,6 +76,11 @@ def grid(ctx, per_problem=None):
                                               "substitution_probability": 0.5, "variable_order_cost_a": 0.5, "variable_order_cost_b": 0.25, "sales_price_a": 1.0, "sales_price_b": 2.0}})
     out.append({"kind": "hendrix", "params": {"max_useful_life": 2, "max_order_quantity_a": 2, "max_order_quantity_b": 3, "demand_poisson_mean_a": 2.0, "demand_poisson_mean_b": 5.0,
                                               "substitution_probability": 0.25, "variable_order_cost_a": 0.5, "variable_order_cost_b": 0.25, "sales_price_a": 1.0, "sales_price_b": 2.0}})
+    # no substitution at all / certain substitution (the boundary values of the substitution probability), small means so that the
+    # demand truncation loses almost nothing and the comparison with the documented joint law is tight
+    for rho in (0.0, 1.0):
+        out.append({"kind": "hendrix", "params": {"max_useful_life": 2, "max_order_quantity_a": 2, "max_order_quantity_b": 2, "demand_poisson_mean_a": 0.5, "demand_poisson_mean_b": 0.5,
+                                                  "substitution_probability": rho, "variable_order_cost_a": 0.5, "variable_order_cost_b": 0.25, "sales_price_a": 1.0, "sales_price_b": 2.0}})
     # construction HISTORY: the measured problem is built after a sibling of the same class that differs in ONE size parameter
     # (same demand distribution parameters) was built in the same process - a problem's functions depend on its own parameters only
     sib = [("de_moor", {"max_demand": 5, "demand_gamma_mean": 2.5, "demand_gamma_cov": 0.5, "max_useful_life": 2, "lead_time": 1, "max_order_quantity": 2,
